@@ -33,6 +33,11 @@ fn v_leaves() -> Vec<VOperand> {
         VOperand::QStrings(vec![vec![ch('k'), ch('a')], vec![ch('a'), ch('b')]]),
         VOperand::Prop(false, "Lu".into()),
         VOperand::Prop(true, "Lu".into()),
+        // multi-interval operands and ranges that straddle them (interval arithmetic of -- and &&)
+        VOperand::Range(ch('1'), ch('A')),
+        VOperand::Nested(Box::new(VClass { negated: false, op: VOp::Union, operands: vec![VOperand::Range(ch('a'), ch('b')), VOperand::Range(ch('k'), ch('s'))] })),
+        VOperand::Nested(Box::new(VClass { negated: false, op: VOp::Union, operands: vec![VOperand::Range(ch('b'), ch('k'))] })),
+        VOperand::Nested(Box::new(VClass { negated: false, op: VOp::Union, operands: vec![VOperand::Range(ch('&'), ch('a')), VOperand::Char(ch('x'))] })),
     ]
 }
 
